@@ -162,7 +162,7 @@ Settle(P, f, fuel) ==
 Member(P, f0, path, k, canons, fuel) ==
     The({IF s.st # "is" THEN Fail(s.st)
          ELSE IF P.defs[s.f].kind = "virt" THEN Member(P, s.f, path, k, canons, fuel - 1)
-         ELSE IF P.defs[s.f].kind = "param" THEN Fail("notcomposite")
+         ELSE IF P.defs[s.f].kind = "param" THEN Fail("parammember")   \* a parameter is an integer or an enum
          ELSE IF P.defs[s.f].arr THEN Fail("arraymember")
          ELSE The({IF t = 0 THEN Fail("indirect")
                    ELSE IF P.defs[t].kind \notin {"struct", "bits", "anon"} THEN Fail("missing")
@@ -253,7 +253,7 @@ AbbreviationsPrivate(P) ==
     \A at \in Ids(P) : \A k \in DOMAIN P.defs[at].refs :
         \A r \in {Resolve(P, at, P.defs[at].refs[k])} : AbbrevPrivateRef(P, at, P.defs[at].refs[k], r)
 
-Classes == {"ok", "missing", "ambiguous", "duplicate", "notfield", "notcomposite", "arraymember", "indirect"}
+Classes == {"ok", "missing", "ambiguous", "duplicate", "notfield", "notcomposite", "parammember", "arraymember", "indirect"}
 
 (* all of the above with one Resolve per reference (what the model checker runs) *)
 AllScopeProperties(P) ==
